@@ -249,7 +249,8 @@ Proof.
   pose proof (find_total key f) as Hs. pose proof (find_result_wf key f) as Hwf.
   destruct (run (find hash key) f) as [r f1]. cbn [fst] in Hs, Hwf.
   destruct r as [[m|]|e| | |]; try contradiction; try exact I.
-  - apply psafe_rbind; [|intros; apply psafe_step_ok]. apply psafe_with_cpath; [apply Hwf; reflexivity|intros; apply psafe_step_ok].
+  - apply psafe_rbind; [|intros; apply psafe_step_ok]. apply psafe_with_cpath; [apply Hwf; reflexivity|intros l g].
+    unfold unlink_if_present. cbn [run]. destruct (exec (Unlink l) g) as [r0 g1]. destruct r0 as [| | | | | |[]]; exact I.
   - apply psafe_rbind; [apply psafe_ret_ok|intros; apply psafe_step_ok].
 Qed.
 
